@@ -553,9 +553,10 @@ pub fn run<C: Codec>(tier: Tier) -> i32 {
     ctx.assumptions.push("single-threaded deterministic simulation (paused tokio clock): real thread interleavings between user threads and the tasks are not explored; the TCP sockets themselves are replaced by the in-memory physical layer (hook H3), the connection loops are the real ServerTask and a mirror of tcp/client.rs".into());
     ctx.assumptions.push("duplicated deliveries are allowed (at least once); the order in which a stale event and a newer static value reach the handler is not asserted; UpdateInfo is trusted to name created and discarded event ids".into());
     ctx.run::<Converge>();
+    ctx.run::<super::c02t::Tcp>();
     ctx.finish()
 }
 
 pub fn replay<C: Codec>(text: &str, known: &[Known]) -> Option<i32> {
-    replay_file::<C, Converge>(text, known)
+    replay_file::<C, Converge>(text, known).or_else(|| replay_file::<C, super::c02t::Tcp>(text, known))
 }
